@@ -12,8 +12,10 @@ func GenHistory(t *rapid.T, maxOps int, bias17 bool) (Config, []Op) {
 		BrokerInit:        rapid.IntRange(0, 3).Draw(t, "brokerInit") != 0,
 		HugeExp:           rapid.IntRange(0, 7).Draw(t, "hugeExp") == 0,
 		ViaController:     rapid.IntRange(0, 3).Draw(t, "closeViaController") == 0,
+		ClockBase:         rapid.SampledFrom([]int{0, 0, 0, 0, 1, 1, 2, 3, 4}).Draw(t, "clockStart"),
 	}
-	ids := []string{"a", "b", "c"}
+	// ids that are distinct strings but equal after trimming or case folding
+	ids := []string{"a", "b", "c", "a", "b", "c", "a ", " a", "A", "a\n"}
 	opGen := rapid.Custom(func(t *rapid.T) Op {
 		var k int
 		if bias17 {
